@@ -72,6 +72,8 @@ def gen_plan(seed, tier):
                  (1, "packet_out")])
     if k == "flow_mod":
       m, exact = r.pick(alphabet)
+      if r.chance(0.25):
+        m = G.vary_dont_care(m, r)     # (still the same match)
       cmd = r.wpick([(6, W.FC_ADD), (2, W.FC_MODIFY), (2, W.FC_MODIFY_STRICT),
                      (2, W.FC_DELETE), (2, W.FC_DELETE_STRICT)])
       flags = 0
